@@ -135,7 +135,7 @@ for _p, _txt in (('C01', 'every returned block checked against mapping registry,
     add(_p, level='exploration',
         rule='seeded allocate/free/deallocate/realloc histories on 13 policy configurations (aligned/unaligned map, 5 geometries, poison on/off, 3 mutex types) + all sequences of length 6 on nearly-full tiny slabs: ' + _txt,
         jobs=[job('slab', 'c01_slab.cpp', args=['--arg', 'prop=' + _p], shards={'quick': 12, 'thorough': 16}, hang_is_violation=True),
-              job('slab_track_regions', 'c01_slab.cpp', defines=['-DFRG_SLAB_TRACK_REGIONS'], args=['--arg', 'prop=' + _p], tiers=('thorough',), shards={'thorough': 4}, hang_is_violation=True)],
+              job('slab_track_regions', 'c01_slab.cpp', defines=['-DFRG_SLAB_TRACK_REGIONS'], args=['--arg', 'prop=' + _p], tiers=('thorough',), shards={'thorough': 16}, hang_is_violation=True)],
         min_evaluations={'quick': 10000, 'thorough': 100000},
         min_counters={'allocations': 100000, 'frees': 50000, 'reallocs_moved': 1000, 'reallocs_in_place': 1000, 'large_allocations': 1000, 'policy_unmap_calls': 1000, 'exhaustive_histories': 5000},
         assumptions=SLAB_ASSUME)
